@@ -5,7 +5,8 @@
   OBLIGATIONS (audited by `check` with `#print axioms`):
     route_evt_shape, extract_classifies, route_exactly_one, metric_goes_to_metrics, span_goes_to_traces,
     fallback_logs, fallback_logs_unqualified, discard_iff_no_signal_can_take, never_contradicts_kind,
-    name_irrelevant, routeEvt_exactly_one, big_integer_goes_to_logs, empty_gauge_sequence_goes_to_logs
+    name_irrelevant, routeEvt_exactly_one, big_integer_goes_to_logs, empty_gauge_sequence_goes_to_logs,
+    instants_irrelevant, logs_configured_never_discards
 -/
 import EmitModel.Lemmas.Otlp
 
@@ -197,6 +198,35 @@ theorem routeEvt_exactly_one (c : Cfg) (e : Evt) :
   rw [route_evt_shape]
   exact ⟨(route_exactly_one _ _ _ _).1, discard_iff_no_signal_can_take _ _ _ _⟩
 
+/-- The routing never looks at the *instants* of an extent, only at whether the extent is absent, a point or a
+    range: two events with the same properties whose extents are of the same class go the same way. In
+    particular an instant that does not fit the 64-bit nanosecond fields of OTLP (at or after 2^64 ns,
+    2554-07-21 — `Timestamp` goes up to year 9999) is routed like any other: what is *recorded* for it is
+    C13's subject (`EmitModel.C13.log_time_wraps`), no encoder may decline the event because of it. -/
+theorem instants_irrelevant (c : Cfg) (x y : Extent) (props : List (String × Val))
+    (h : extentClass x = extentClass y) : routeEvt c ⟨x, props⟩ = routeEvt c ⟨y, props⟩ := by
+  rw [route_evt_shape, route_evt_shape]
+  simp [shapeOf, h]
+
+/-- Logs is the catch-all: with the logs signal configured **no event is ever dropped**, whatever its kind,
+    its properties and its extent — it goes through exactly one signal (and through logs unless its own
+    signal takes it). -/
+theorem logs_configured_never_discards (c : Cfg) (e : Evt) (h : c.logs = true) :
+    (∃ s, routeEvt c e = .signal s) ∧ (routeEvt c e).discards = 0 ∧
+    ((¬ (c.metrics = true ∧ acceptsMetric (shapeOf e) = true) ∧
+      ¬ (c.traces = true ∧ acceptsSpan (shapeOf e) = true)) → routeEvt c e = .signal .logs) := by
+  have hd := (routeEvt_exactly_one c e).2
+  refine ⟨?_, ?_, ?_⟩
+  · cases hr : routeEvt c e with
+    | signal s => exact ⟨s, rfl⟩
+    | discard => rw [hd] at hr; simp [h] at hr
+  · cases hr : routeEvt c e with
+    | signal s => rfl
+    | discard => rw [hd] at hr; simp [h] at hr
+  · intro ⟨hm, ht⟩
+    rw [route_evt_shape, h]
+    exact fallback_logs _ _ _ hm ht
+
 /-! ### Two boundary facts of the code, recorded as theorems (see props/C14.json `assumptions`) -/
 
 /-- An integer outside the i64 range (e.g. `u64::MAX`) is streamed by sval as tagged *text*, so the metrics
@@ -226,5 +256,15 @@ example : ∃ (t m : Bool) (s : Shape), ¬ (m = true ∧ acceptsMetric s = true)
 example : route false true true ⟨.span, .point, false, .missing, .missing⟩ = .discard := by decide
 example : routeEvt ⟨true, true, true⟩
     ⟨.range 1 2, [("evt_kind", .str " SPAN "), ("evt_kind", .kind .metric)]⟩ = .signal .traces := by decide
+-- far-future instants (year 3000, `Timestamp::MAX`): a plain event, a span-kinded point event and a metric sample
+-- whose signal is off all go through logs; a qualifying span stays on traces
+example : routeEvt ⟨true, true, true⟩ ⟨.point 32503680000000000000, []⟩ = .signal .logs := by decide
+example : routeEvt ⟨true, true, true⟩ ⟨.point 253402300799999999999, [("evt_kind", .kind .span)]⟩ = .signal .logs := by
+  decide
+example : routeEvt ⟨true, true, false⟩ ⟨.range 0 253402300799999999999,
+    [("evt_kind", .kind .metric), ("metric_value", .int 1)]⟩ = .signal .logs := by decide
+example : routeEvt ⟨true, true, true⟩ ⟨.range 32503680000000000000 253402300799999999999,
+    [("evt_kind", .kind .span)]⟩ = .signal .traces := by decide
+example : extentClass (.point 1) = extentClass (.point 253402300799999999999) := rfl
 
 end EmitModel.C14
